@@ -1,53 +1,36 @@
-(* C20 — the translator's output (Gen_performance.v, regenerated from /repo on every run) computes the same functions
-   as the clean models in Model.v.  If the Python kernels change, this file stops compiling (or the translator
-   refuses) and the obligation is reported as broken. *)
-From Coq Require Import ZArith QArith Bool List Lia ZifyBool.
-Require Import QV.common.Ctl QV.C20.ForLoop QV.C20.Gen_performance QV.C20.Model.
+(* C20 — the translator's output (Gen_performance.v, Gen_util.v; regenerated from /repo on every run) computes the same
+   functions as the clean models in Model.v.
+   Structure per kernel:  (1) astep — the meaning of one loop iteration as a partial transformer of the canonical loop
+   state, written by hand;  (2) `sim_body body astep` by the text-independent tactic of LoopSim.v;  (3) the loop over
+   astep equals the clean model (induction; does not mention generated code);  (4) the whole kernel.
+   If a kernel's meaning changes, (2) or (4) stops compiling (or the translator refuses) and the obligation is reported
+   as broken; equivalent rewrites that add / rename / remove temporaries, re-order independent statements or
+   re-associate integer arithmetic keep compiling. *)
+From Coq Require Import ZArith QArith Qround Qabs Bool List Lia ZifyBool.
+Require Import QV.common.Ctl QV.C20.ForLoop QV.C20.Gen_performance QV.C20.Gen_util QV.C20.Model QV.C20.LoopSim QV.C20.ProofsNum.
 Import ListNotations.
 Open Scope Z_scope.
 
-Lemma zget_mid (p : list Z) x r : zget (p ++ x :: r) (Z.of_nat (length p)) = Some x.
-Proof.
-  unfold zget. rewrite app_length. cbn [length].
-  replace ((0 <=? Z.of_nat (length p)) && (Z.of_nat (length p) <? Z.of_nat (length p + S (length r)))) with true by lia.
-  rewrite Nat2Z.id, nth_error_app2, Nat.sub_diag by lia. reflexivity.
-Qed.
+(* ================================================================================================================== *)
+(* _is_monotonic_numba *)
+Definition mono_astep (i : Z) (st : list Z * bool) : option (list Z * bool) :=
+  let '(x, m) := st in
+  match zget x (i - 1) with
+  | Some a => match zget x i with Some b => Some (x, m && (a <=? b)) | None => None end
+  | None => None
+  end.
 
-Lemma zget_mid1 (p : list Z) x y r : zget (p ++ x :: y :: r) (Z.of_nat (length p) + 1) = Some y.
-Proof.
-  replace (p ++ x :: y :: r) with ((p ++ [x]) ++ y :: r) by (rewrite <- app_assoc; reflexivity).
-  replace (Z.of_nat (length p) + 1) with (Z.of_nat (length (p ++ [x]))) by (rewrite app_length; cbn; lia).
-  apply zget_mid.
-Qed.
+Lemma mono_sim : sim_body gen_is_monotonic_numba_body1 mono_astep.
+Proof. sim_body_tac gen_is_monotonic_numba_body1 mono_astep. Qed.
 
-Lemma zset_mid (p : list Z) x r v : zset (p ++ x :: r) (Z.of_nat (length p)) v = Some (p ++ v :: r).
-Proof.
-  unfold zset. rewrite app_length. cbn [length].
-  replace ((0 <=? Z.of_nat (length p)) && (Z.of_nat (length p) <? Z.of_nat (length p + S (length r)))) with true by lia.
-  rewrite Nat2Z.id. f_equal.
-  rewrite firstn_app, Nat.sub_diag, firstn_all. cbn [firstn]. rewrite app_nil_r. f_equal.
-  replace (S (length p)) with (length (p ++ [x])) by (rewrite app_length; cbn; lia).
-  replace (p ++ x :: r) with ((p ++ [x]) ++ r) by (rewrite <- app_assoc; reflexivity).
-  rewrite skipn_app, skipn_all, Nat.sub_diag. reflexivity.
-Qed.
-
-Lemma zset_mid1 (p : list Z) x y r v : zset (p ++ x :: y :: r) (Z.of_nat (length p) + 1) v = Some (p ++ x :: v :: r).
-Proof.
-  replace (p ++ x :: y :: r) with ((p ++ [x]) ++ y :: r) by (rewrite <- app_assoc; reflexivity).
-  replace (Z.of_nat (length p) + 1) with (Z.of_nat (length (p ++ [x]))) by (rewrite app_length; cbn; lia).
-  rewrite zset_mid. rewrite <- app_assoc. reflexivity.
-Qed.
-
-(* ---- _is_monotonic_numba ---- *)
 Fixpoint monoZ_go (prev : Z) (xs : list Z) (acc : bool) : bool :=
   match xs with [] => acc | x :: r => monoZ_go x r (acc && (prev <=? x)) end.
 
-Lemma mono_body_loop : forall r p a acc i0,
-  exists i1, for_loop (length r) (Z.of_nat (length p) + 1) gen_is_monotonic_numba_body1 (p ++ a :: r, acc, i0)
-             = Next (p ++ a :: r, monoZ_go a r acc, i1).
+Lemma mono_aloop : forall r p a acc,
+  aloop (length r) (Z.of_nat (length p) + 1) mono_astep (p ++ a :: r, acc) = Some (p ++ a :: r, monoZ_go a r acc).
 Proof.
-  induction r as [|b r IH]; intros p a acc i0; cbn [length for_loop monoZ_go]; [eexists; reflexivity|].
-  unfold gen_is_monotonic_numba_body1 at 1.
+  induction r as [|b r IH]; intros p a acc; cbn [length aloop monoZ_go]; [reflexivity|].
+  unfold mono_astep at 1.
   replace (Z.of_nat (length p) + 1 - 1) with (Z.of_nat (length p)) by lia.
   rewrite zget_mid, zget_mid1.
   replace (p ++ a :: b :: r) with ((p ++ [a]) ++ b :: r) by (rewrite <- app_assoc; reflexivity).
@@ -61,41 +44,50 @@ Proof. unfold Qle_bool, inject_Z; cbn. rewrite !Z.mul_1_r. reflexivity. Qed.
 Lemma monoZ_go_Q a r acc : monoZ_go a r acc = mono_loop_go (inject_Z a) (map inject_Z r) acc.
 Proof. revert a acc. induction r as [|b r IH]; intros; cbn; [reflexivity|]. rewrite IH, Qle_bool_inject. reflexivity. Qed.
 
-Theorem gen_is_monotonic_eq xs : gen_is_monotonic_numba xs = Ret (mono_loop (map inject_Z xs), xs).
+Theorem gen_is_monotonic_eq xs : gen_is_monotonic_numba xs = Ret (mono_loop (map inject_Z xs)).
 Proof.
-  unfold gen_is_monotonic_numba, for_range. destruct xs as [|a r].
-  - reflexivity.
-  - cbn [length]. replace (Z.to_nat (Z.of_nat (S (length r)) - 1)) with (length r) by lia.
-    destruct (mono_body_loop r [] a true 0) as [i1 H]. cbn [length app] in H. cbn [Z.of_nat Z.add] in H.
-    rewrite H. cbn [map mono_loop]. rewrite monoZ_go_Q. reflexivity.
+  unfold gen_is_monotonic_numba, for_range. cbv zeta. rewrite (for_loop_sim _ _ mono_sim).
+  unfold gen_is_monotonic_numba_state1, gen_is_monotonic_numba_result.
+  destruct xs as [|a r]; [reflexivity|].
+  cbn [length]. replace (Z.to_nat (Z.of_nat (S (length r)) - 1)) with (length r) by lia.
+  pose proof (mono_aloop r [] a true) as H. cbn [length app Z.of_nat Z.add] in H. rewrite H.
+  cbn [for_then]. unfold gen_is_monotonic_numba_post1. cbn [map mono_loop]. rewrite monoZ_go_Q. reflexivity.
 Qed.
 
-(* ---- _shrink_overlapping_windows_numba ---- *)
-Definition shrink_out (c : ctl gen_shrink_overlapping_windows_numba_result gen_shrink_overlapping_windows_numba_state)
-  : outcome (list (Z * Z) * bool) :=
+(* ================================================================================================================== *)
+(* _shrink_overlapping_windows_numba *)
+Definition shrink_astep (i : Z) (st : list Z * list Z * bool) : option (list Z * list Z * bool) :=
+  let '(bs, ls, s) := st in
+  match zget bs i with None => None | Some b =>
+  match zget ls i with None => None | Some l =>
+  match zget bs (i + 1) with None => None | Some b1 =>
+    if b + l >? b1 then
+      match zget ls (i + 1) with None => None | Some l1 =>
+        if l1 >? b + l - b1 then
+          match zset bs (i + 1) (b1 + (b + l - b1)) with None => None | Some bs' =>
+          match zset ls (i + 1) (l1 - (b + l - b1)) with None => None | Some ls' => Some (bs', ls', true) end end
+        else None
+      end
+    else Some (bs, ls, s)
+  end end end.
+
+Lemma shrink_sim : sim_body gen_shrink_overlapping_windows_numba_body1 shrink_astep.
+Proof. sim_body_tac gen_shrink_overlapping_windows_numba_body1 shrink_astep. Qed.
+
+Definition shrink_out {S} (c : ctl gen_shrink_overlapping_windows_numba_result S) : outcome (list (Z * Z) * bool) :=
   match c with
   | Ret (s, bs, ls) => ORet (combine bs ls, s)
   | _ => OErr
   end.
 
-Lemma zget_at (p : list Z) x r n : n = length p -> zget (p ++ x :: r) (Z.of_nat n) = Some x.
-Proof. intros ->. apply zget_mid. Qed.
-Lemma zget_at1 (p : list Z) x y r n : n = length p -> zget (p ++ x :: y :: r) (Z.of_nat n + 1) = Some y.
-Proof. intros ->. apply zget_mid1. Qed.
-Lemma zset_at1 (p : list Z) x y r v n : n = length p -> zset (p ++ x :: y :: r) (Z.of_nat n + 1) v = Some (p ++ x :: v :: r).
-Proof. intros ->. apply zset_mid1. Qed.
-
-Lemma shrink_body_step pb pl b l b1 l1 rb rl s j1 j2 j3 j4 : length pb = length pl ->
-  gen_shrink_overlapping_windows_numba_body1 (Z.of_nat (length pb))
-    (pb ++ b :: b1 :: rb, pl ++ l :: l1 :: rl, s, j1, j2, j3, j4)
+Lemma shrink_astep_step pb pl b l b1 l1 rb rl s : length pb = length pl ->
+  shrink_astep (Z.of_nat (length pb)) (pb ++ b :: b1 :: rb, pl ++ l :: l1 :: rl, s)
   = if b + l >? b1 then
-      if l1 >? b + l - b1 then
-        Next (pb ++ b :: (b1 + (b + l - b1)) :: rb, pl ++ l :: (l1 - (b + l - b1)) :: rl, true,
-              Z.of_nat (length pb), b + l, b1, b + l - b1)
-      else Fail
-    else Next (pb ++ b :: b1 :: rb, pl ++ l :: l1 :: rl, s, Z.of_nat (length pb), b + l, b1, j4).
+      if l1 >? b + l - b1 then Some (pb ++ b :: (b1 + (b + l - b1)) :: rb, pl ++ l :: (l1 - (b + l - b1)) :: rl, true)
+      else None
+    else Some (pb ++ b :: b1 :: rb, pl ++ l :: l1 :: rl, s).
 Proof.
-  intro Hp. unfold gen_shrink_overlapping_windows_numba_body1. cbv zeta.
+  intro Hp. unfold shrink_astep.
   rewrite (zget_at pb) by reflexivity. rewrite (zget_at pl) by exact Hp.
   rewrite (zget_at1 pb) by reflexivity. rewrite (zget_at1 pl) by exact Hp.
   rewrite (zset_at1 pb) by reflexivity. rewrite (zset_at1 pl) by exact Hp.
@@ -103,40 +95,30 @@ Proof.
   destruct (l1 >? b + l - b1); reflexivity.
 Qed.
 
-Lemma shrink_body_loop : forall rb rl pb pl b l s j1 j2 j3 j4,
+Lemma shrink_aloop : forall rb rl pb pl b l s,
   length rb = length rl -> length pb = length pl ->
-  match shrink_loop_go b l (combine rb rl) s with
-  | ORet (ws, s') =>
-      exists k1 k2 k3 k4,
-      for_loop (length rb) (Z.of_nat (length pb)) gen_shrink_overlapping_windows_numba_body1
-               (pb ++ b :: rb, pl ++ l :: rl, s, j1, j2, j3, j4)
-      = Next (pb ++ map fst ws, pl ++ map snd ws, s', k1, k2, k3, k4)
-  | OErr =>
-      for_loop (length rb) (Z.of_nat (length pb)) gen_shrink_overlapping_windows_numba_body1
-               (pb ++ b :: rb, pl ++ l :: rl, s, j1, j2, j3, j4) = Fail
-  end.
+  aloop (length rb) (Z.of_nat (length pb)) shrink_astep (pb ++ b :: rb, pl ++ l :: rl, s)
+  = match shrink_loop_go b l (combine rb rl) s with
+    | ORet (ws, s') => Some (pb ++ map fst ws, pl ++ map snd ws, s')
+    | OErr => None
+    end.
 Proof.
-  induction rb as [|b1 rb IH]; intros rl pb pl b l s j1 j2 j3 j4 Hr Hp; destruct rl as [|l1 rl]; try discriminate.
-  - cbn. do 4 eexists. reflexivity.
-  - cbn [combine shrink_loop_go length for_loop]. rewrite (shrink_body_step _ _ _ _ _ _ _ _ _ _ _ _ _ Hp).
+  induction rb as [|b1 rb IH]; intros rl pb pl b l s Hr Hp; destruct rl as [|l1 rl]; try discriminate.
+  - reflexivity.
+  - cbn [combine shrink_loop_go length aloop]. rewrite (shrink_astep_step _ _ _ _ _ _ _ _ _ Hp).
     injection Hr as Hr.
     assert (Hp' : length (pb ++ [b]) = length (pl ++ [l])) by (rewrite !app_length, Hp; reflexivity).
     assert (Hi : Z.of_nat (length pb) + 1 = Z.of_nat (length (pb ++ [b]))) by (rewrite app_length; cbn; lia).
     destruct (b + l >? b1) eqn:E1.
     + destruct (l1 >? b + l - b1) eqn:E2; [|reflexivity].
-      specialize (IH rl (pb ++ [b]) (pl ++ [l]) (b1 + (b + l - b1)) (l1 - (b + l - b1)) true
-                     (Z.of_nat (length pb)) (b + l) b1 (b + l - b1) Hr Hp').
-      rewrite <- Hi, <- !app_assoc in IH. cbn [app] in IH.
-      destruct (shrink_loop_go (b1 + (b + l - b1)) (l1 - (b + l - b1)) (combine rb rl) true) as [[ws s']|].
-      * destruct IH as [k1 [k2 [k3 [k4 IH]]]]. exists k1, k2, k3, k4. rewrite IH.
-        cbn [map fst snd]. rewrite <- !app_assoc. reflexivity.
-      * exact IH.
-    + specialize (IH rl (pb ++ [b]) (pl ++ [l]) b1 l1 s (Z.of_nat (length pb)) (b + l) b1 j4 Hr Hp').
-      rewrite <- Hi, <- !app_assoc in IH. cbn [app] in IH.
-      destruct (shrink_loop_go b1 l1 (combine rb rl) s) as [[ws s']|].
-      * destruct IH as [k1 [k2 [k3 [k4 IH]]]]. exists k1, k2, k3, k4. rewrite IH.
-        cbn [map fst snd]. rewrite <- !app_assoc. reflexivity.
-      * exact IH.
+      specialize (IH rl (pb ++ [b]) (pl ++ [l]) (b1 + (b + l - b1)) (l1 - (b + l - b1)) true Hr Hp').
+      rewrite <- Hi, <- !app_assoc in IH. cbn [app] in IH. rewrite IH.
+      destruct (shrink_loop_go (b1 + (b + l - b1)) (l1 - (b + l - b1)) (combine rb rl) true) as [[ws s']|]; [|reflexivity].
+      cbn [map fst snd]. rewrite <- !app_assoc. reflexivity.
+    + specialize (IH rl (pb ++ [b]) (pl ++ [l]) b1 l1 s Hr Hp').
+      rewrite <- Hi, <- !app_assoc in IH. cbn [app] in IH. rewrite IH.
+      destruct (shrink_loop_go b1 l1 (combine rb rl) s) as [[ws s']|]; [|reflexivity].
+      cbn [map fst snd]. rewrite <- !app_assoc. reflexivity.
 Qed.
 
 Lemma combine_map_fst_snd (ws : list (Z * Z)) : combine (map fst ws) (map snd ws) = ws.
@@ -145,12 +127,127 @@ Proof. induction ws as [|[a b] r IH]; cbn; [reflexivity|]. rewrite IH. reflexivi
 Theorem gen_shrink_eq bs ls : length bs = length ls ->
   shrink_out (gen_shrink_overlapping_windows_numba bs ls) = shrink_loop (combine bs ls).
 Proof.
-  intro H. unfold gen_shrink_overlapping_windows_numba, for_range.
+  intro H. unfold gen_shrink_overlapping_windows_numba, for_range. cbv zeta. rewrite (for_loop_sim _ _ shrink_sim).
+  unfold gen_shrink_overlapping_windows_numba_state1, gen_shrink_overlapping_windows_numba_result.
   destruct bs as [|b rb]; destruct ls as [|l rl]; try discriminate; [reflexivity|].
   cbn [combine shrink_loop length]. injection H as H.
   replace (Z.to_nat (Z.of_nat (S (length rb)) - 1 - 0)) with (length rb) by lia.
-  pose proof (shrink_body_loop rb rl [] [] b l false 0 0 0 0 H eq_refl) as L. cbn [length app Z.of_nat] in L.
-  destruct (shrink_loop_go b l (combine rb rl) false) as [[ws s']|].
-  - destruct L as [k1 [k2 [k3 [k4 L]]]]. rewrite L. cbn [shrink_out]. rewrite combine_map_fst_snd. reflexivity.
-  - rewrite L. reflexivity.
+  pose proof (shrink_aloop rb rl [] [] b l false H eq_refl) as L. cbn [length app Z.of_nat] in L. rewrite L.
+  destruct (shrink_loop_go b l (combine rb rl) false) as [[ws s']|]; [|reflexivity].
+  cbn [for_then]. unfold gen_shrink_overlapping_windows_numba_post1. cbn [shrink_out app].
+  rewrite combine_map_fst_snd. reflexivity.
+Qed.
+
+(* ================================================================================================================== *)
+(* _time_windows_to_samples_sorted_numba: element k of the two outputs is round(begins[k]*rate), uint64(lengths[k]*rate) *)
+Definition tw_state : Type := (list Q * list Q * Q * list Z * list Z)%type.
+Definition tw_astep (i : Z) (st : tw_state) : option tw_state :=
+  let '(bs, ls, sr, bas, las) := st in
+  match qget bs i with None => None | Some b =>
+  match zset bas i (rint (Qmult b sr)) with None => None | Some bas' =>
+  match qget ls i with None => None | Some l =>
+  match zset las i (py_trunc (Qmult l sr)) with None => None | Some las' => Some (bs, ls, sr, bas', las')
+  end end end end.
+
+Lemma tw_sim : sim_body gen_time_windows_to_samples_sorted_numba_body1 tw_astep.
+Proof. sim_body_tac gen_time_windows_to_samples_sorted_numba_body1 tw_astep. Qed.
+
+Lemma tw_aloop sr : forall rb rl pb pl da dl ja jl,
+  length rb = length rl -> length ja = length rb -> length jl = length rl ->
+  length pb = length pl -> length da = length pb -> length dl = length pb ->
+  aloop (length rb) (Z.of_nat (length pb)) tw_astep (pb ++ rb, pl ++ rl, sr, da ++ ja, dl ++ jl)
+  = Some (pb ++ rb, pl ++ rl, sr, da ++ map (fun b => rint (Qmult b sr)) rb, dl ++ map (fun l => py_trunc (Qmult l sr)) rl).
+Proof.
+  induction rb as [|b rb IH]; intros rl pb pl da dl ja jl Hr Hja Hjl Hp Hda Hdl;
+    destruct rl as [|l rl]; try discriminate.
+  - destruct ja; [|discriminate]. destruct jl; [|discriminate]. reflexivity.
+  - destruct ja as [|a0 ja]; [discriminate|]. destruct jl as [|l0 jl]; [discriminate|].
+    cbn [length aloop]. unfold tw_astep at 1.
+    rewrite (qget_at pb) by reflexivity. rewrite (zset_at da) by (symmetry; exact Hda).
+    rewrite (qget_at pl) by exact Hp. rewrite (zset_at dl) by (symmetry; exact Hdl).
+    injection Hr as Hr. injection Hja as Hja. injection Hjl as Hjl.
+    specialize (IH rl (pb ++ [b]) (pl ++ [l]) (da ++ [rint (Qmult b sr)]) (dl ++ [py_trunc (Qmult l sr)]) ja jl Hr Hja Hjl).
+    rewrite !app_length in IH. cbn [length] in IH.
+    specialize (IH ltac:(lia) ltac:(lia) ltac:(lia)).
+    replace (Z.of_nat (length pb + 1)) with (Z.of_nat (length pb) + 1) in IH by lia.
+    rewrite <- !app_assoc in IH. cbn [app] in IH. rewrite IH. cbn [map]. reflexivity.
+Qed.
+
+Theorem gen_tw_sorted_eq bs ls sr : length bs = length ls ->
+  gen_time_windows_to_samples_sorted_numba bs ls sr
+  = Ret (map (fun b => rint (Qmult b sr)) bs, map (fun l => py_trunc (Qmult l sr)) ls).
+Proof.
+  intro H. unfold gen_time_windows_to_samples_sorted_numba, for_range. cbv zeta. rewrite (for_loop_sim _ _ tw_sim).
+  unfold gen_time_windows_to_samples_sorted_numba_state1, gen_time_windows_to_samples_sorted_numba_result, tw_state in *.
+  rewrite !Nat2Z.id, Z.sub_0_r, Nat2Z.id.
+  pose proof (tw_aloop sr bs ls [] [] [] [] (repeat 0 (length bs)) (repeat 0 (length ls)) H) as L.
+  rewrite !repeat_length in L. specialize (L eq_refl eq_refl eq_refl eq_refl eq_refl).
+  cbn [app length Z.of_nat] in L. unfold tw_state in L. rewrite L. reflexivity.
+Qed.
+
+(* with non-negative lengths this is the model's per-window conversion (begin: nearest/half-even, length: floor) *)
+Theorem gen_tw_sorted_is_conv bs ls sr : length bs = length ls -> Forall (fun l => (0 <= l * sr)%Q) ls ->
+  match gen_time_windows_to_samples_sorted_numba bs ls sr with
+  | Ret (b', l') => combine b' l' = map (conv sr) (combine bs ls)
+  | _ => False
+  end.
+Proof.
+  intros H F. rewrite gen_tw_sorted_eq by exact H. revert ls H F.
+  induction bs as [|b bs IH]; intros [|l ls] H F; try discriminate; [reflexivity|].
+  inversion F as [|? ? Hl F']; subst. injection H as H. cbn [map combine]. rewrite (IH ls H F'). f_equal.
+  unfold conv. cbn [fst snd]. rewrite py_trunc_nonneg by exact Hl. reflexivity.
+Qed.
+
+(* ================================================================================================================== *)
+(* _voltage_to_uint16_numba *)
+Definition volt_state : Type := (list Q * Q * Q * Z * bool * Q * list Z)%type.
+Definition volt_astep (i : Z) (st : volt_state) : option volt_state :=
+  let '(vs, amp, off, res, flag, scale, result) := st in
+  match qget vs i with None => None | Some v =>
+    match zset result i (py_trunc (inject_Z (rint (Qmult (Qplus (Qminus v off) amp) scale)))) with
+    | None => None
+    | Some result' => Some (vs, amp, off, res, (if negb (Qle_bool (Qabs (Qminus v off)) amp) then true else flag), scale, result')
+    end
+  end.
+
+Lemma volt_sim : sim_body gen_voltage_to_uint16_numba_body1 volt_astep.
+Proof. sim_body_tac gen_voltage_to_uint16_numba_body1 volt_astep. Qed.
+
+Lemma volt_aloop amp off res : forall r p d j flag,
+  length j = length r -> length d = length p ->
+  aloop (length r) (Z.of_nat (length p)) volt_astep (p ++ r, amp, off, res, flag, vscale amp res, d ++ j)
+  = Some (p ++ r, amp, off, res, flag || existsb (out_of_range amp off) r, vscale amp res, d ++ map (code1 amp off res) r).
+Proof.
+  induction r as [|v r IH]; intros p d j flag Hj Hd.
+  - destruct j; [|discriminate]. cbn. rewrite orb_false_r. reflexivity.
+  - destruct j as [|j0 j]; [discriminate|]. injection Hj as Hj.
+    cbn [length aloop]. unfold volt_astep at 1.
+    rewrite (qget_at p) by reflexivity. rewrite (zset_at d) by (symmetry; exact Hd). rewrite py_trunc_inject.
+    specialize (IH (p ++ [v]) (d ++ [rint (Qmult (Qplus (Qminus v off) amp) (vscale amp res))]) j
+                   (if negb (Qle_bool (Qabs (Qminus v off)) amp) then true else flag) Hj).
+    rewrite !app_length in IH. cbn [length] in IH. specialize (IH ltac:(lia)).
+    replace (Z.of_nat (length p + 1)) with (Z.of_nat (length p) + 1) in IH by lia.
+    rewrite <- !app_assoc in IH. cbn [app] in IH. rewrite IH. cbn [map existsb].
+    unfold out_of_range at 2. unfold code1 at 2.
+    destruct (negb (Qle_bool (Qabs (v - off)) amp)); cbn [orb]; [rewrite orb_true_r|]; reflexivity.
+Qed.
+
+(* the kernel is the model's volt_loop: flag remembered, error after the loop; the two guards are the Python
+   exceptions of `2 ** resolution` with a negative exponent becoming a float (refused) and of the division by 2*amp = 0 *)
+Theorem gen_voltage_to_uint16_eq vs amp off res :
+  gen_voltage_to_uint16_numba vs amp off res
+  = if res <? 0 then Fail
+    else if Qeq_bool (inject_Z 2 * amp) (inject_Z 0) then Fail
+    else match volt_loop amp off res vs with ORet cs => Ret cs | OErr => Fail end.
+Proof.
+  unfold gen_voltage_to_uint16_numba, for_range. cbv zeta.
+  destruct (res <? 0); [reflexivity|]. destruct (Qeq_bool (inject_Z 2 * amp) (inject_Z 0)); [reflexivity|].
+  rewrite (for_loop_sim _ _ volt_sim). rewrite Z.sub_0_r, Nat2Z.id.
+  unfold gen_voltage_to_uint16_numba_state1, gen_voltage_to_uint16_numba_result, volt_state in *.
+  pose proof (volt_aloop amp off res vs [] [] (repeat 0 (length vs)) false) as L.
+  rewrite repeat_length in L. specialize (L eq_refl eq_refl). cbn [app length Z.of_nat orb] in L.
+  change (Qdiv (inject_Z (2 ^ res - 1)) (Qmult (inject_Z 2) amp)) with (vscale amp res).
+  unfold volt_state in L. rewrite L. cbn [for_then]. unfold gen_voltage_to_uint16_numba_post1.
+  unfold volt_loop. rewrite volt_loop_go_spec. cbn [orb rev app].
+  destruct (existsb (out_of_range amp off) vs); reflexivity.
 Qed.
